@@ -2278,7 +2278,10 @@ func TestZZVerifC03Replay(t *testing.T) {
 
 // ---------------------------------------------------------------- direction B
 
-var zzC03BLabels = []string{"ads", "xads", "cdn", "beta", "track", "a", "shop", "adsrv", "ads1"}
+// The labels of direction B are rendered as they are; none of them may be a
+// label name of the exhaustive universe ("a", "b", "xa", "ar", "a1"), whose
+// regular-expression classes AccessCore shares with this vocabulary.
+var zzC03BLabels = []string{"ads", "xads", "cdn", "beta", "track", "cc", "shop", "adsrv", "ads1"}
 var zzC03BTLDs = []string{"com", "org", "net"}
 var zzC03BIDs = []string{"phone", "tv-2", "kid", "lap-top", "guest7", "x"}
 
@@ -2598,7 +2601,7 @@ func zzC03RandReq(rng *rand.Rand, v *zzC03Vec, w int, protos []string) (ar *zzC0
 		case 0:
 			ar.Name = append([]string{zzC03BLabels[rng.Intn(len(zzC03BLabels))]}, ar.Name...)
 		case 1:
-			ar.Name = append([]string{"a", zzC03BLabels[rng.Intn(len(zzC03BLabels))]}, ar.Name...)
+			ar.Name = append([]string{"cc", zzC03BLabels[rng.Intn(len(zzC03BLabels))]}, ar.Name...)
 		case 2:
 			// Look-alike of the first label.
 			ar.Name[0] = "x" + ar.Name[0]
